@@ -19,7 +19,7 @@ from rv import gen, oracle
 from rv.props import C07_gen as G
 
 PLAN = {
-    "quick": {"cases": 400, "hashseeds": 3, "shards": 5, "timeout": 420, "min_nontrivial": 120},
+    "quick": {"cases": 600, "hashseeds": 3, "shards": 5, "timeout": 420, "min_nontrivial": 180},
     "thorough": {"cases": 3600, "hashseeds": 8, "shards": 2, "timeout": 3000, "min_nontrivial": 1200,
                  "backends": ["numpy", "torch"], "torch_cases": 240, "torch_shards": 2, "torch_hashseeds": 1},
 }
@@ -69,6 +69,21 @@ MANIFEST = {
                  "secondary Hoeffding guard",
     "note": "trusted: numpy.random.choice honours p; the spec -> CPD column arithmetic of the checker",
 }
+
+# numpy cells: 1e-9.  torch cells: pgmpy builds every table through torch.Tensor(values) (float32) before casting
+# to the configured dtype, so stored probabilities carry ~6e-8 relative rounding; that is representation, not law.
+TOL = {"atol": 1e-9, "rtol": 1e-9}
+
+
+def set_tolerance(backend):
+    from rv.props import C07_trace
+    if backend == "numpy":
+        TOL.update(atol=1e-9, rtol=1e-9)
+        C07_trace.ST.helper_atol = 1e-7
+    else:
+        TOL.update(atol=2e-6, rtol=2e-6)
+        C07_trace.ST.helper_atol = 5e-6
+
 
 K_NUMNAME = "c07:number-taken-as-name"
 K_PARTIAL = "c07:partial-samples-names-not-converted"
@@ -316,7 +331,7 @@ def check_batch(obs, bn, P, b, label, partial=None, free=None):
             pairs = np.unique(np.stack([ev["widx"], col], axis=1), axis=0)
             good = True
             for w, c in pairs:
-                if not np.allclose(ev["wtab"][w], T[:, c], atol=1e-9, rtol=1e-9):
+                if not np.allclose(ev["wtab"][w], T[:, c], **TOL):
                     r = int(np.nonzero((ev["widx"] == w) & (col == c))[0][0])
                     pav = {p: int(numbers[p][r]) for p in pa}
                     obs.violation("c07:wrong-conditional", f"{label}: row {r}: {v!r} was drawn from "
@@ -528,7 +543,7 @@ def probe_lw(bn, prm, obs, ctx, aux):
                     for p in bn["cpds"][v]["parents"]:
                         col = col * bn["card"][p] + nums[p]
                     want = want * P.T[v][ev[v], col]
-                d = np.nonzero(~np.isclose(wts, want, atol=1e-12, rtol=1e-9))[0]
+                d = np.nonzero(~np.isclose(wts, want, atol=1e-12, rtol=TOL['rtol'] * 10))[0]
                 fam = [p for v in ev for p in bn["cpds"][v]["parents"]]
                 if len(d):
                     i = int(d[0])
@@ -580,7 +595,7 @@ def gibbs_common(obs, ctx, g, nodes, card, J, prm, lab, latents, attrib_of):
                 bad = (tup, f"unreadable ({type(e).__name__}: {e})", want)
                 break
             ncmp += 1
-            if gotk.shape != want.shape or not np.allclose(gotk, want, atol=1e-9, rtol=1e-9):
+            if gotk.shape != want.shape or not np.allclose(gotk, want, **TOL):
                 bad = (tup, np.round(gotk, 6).tolist(), want)
                 break
         if bad:
@@ -634,7 +649,7 @@ def gibbs_common(obs, ctx, g, nodes, card, J, prm, lab, latents, attrib_of):
                     want = cond(var, state)
                     p = ev["wtab"][0]
                     if str(ev["node"]) != var or want is None or p.shape != want.shape or \
-                            not np.allclose(p, want, atol=1e-9, rtol=1e-9):
+                            not np.allclose(p, want, **TOL):
                         obs.violation("c07:gibbs-step-not-full-conditional", f"{labr}: sweep {i}: {ev['node']!r} drawn "
                                       f"from {np.round(p, 6).tolist()}; full conditional of {var!r} at chain state "
                                       f"{state} = {None if want is None else np.round(want, 6).tolist()}",
@@ -890,43 +905,59 @@ def probe_stat(bn, prm, obs, ctx, aux):
 
 # ------------------------------------------------------------------ classification by neutralisation
 def neutralise(bn, key, partial):
+    """Remove the structural trigger of one known mechanism from the spec (labels only; tables, draws and all
+    sampler parameters - kept as state numbers - are unchanged).
+    number-taken-as-name : integer state names that are not 0..k-1 become strings (a number can then never be
+                           mistaken for a name, while un-converted partial_samples names still are names);
+    partial-samples      : the partial columns get identity names (name == number)."""
     bn = dict(bn)
     st = dict(bn["states"])
-    if key == K_PARTIAL and partial:
-        for c in partial["cols"]:
-            st[c] = list(range(bn["card"][c]))
-    elif key == K_NUMNAME:
+    if key == K_NUMNAME:
         for v in bn["nodes"]:
             if nonident_int(bn, v):
-                st[v] = list(range(bn["card"][v]))
+                st[v] = [f"{v}_n{i}" for i in range(bn["card"][v])]
+    elif key == K_PARTIAL and partial:
+        for c in partial["cols"]:
+            st[c] = list(range(bn["card"][c]))
     else:
         return None
     bn["states"] = st
     return bn
 
 
-NEUTRALISABLE = [K_PARTIAL, K_NUMNAME]
+NEUTRALISABLE = [K_NUMNAME, K_PARTIAL]
 
 
 def run_probe(fn, bn, prm, ctx, aux, partial):
+    """Run one sampler probe; if it fails and a structural predicate of a known mechanism holds, re-run it with
+    the triggers neutralised one after the other (cumulatively).  Only when a re-run is completely clean are the
+    violations attributed, each to the last neutralised mechanism its own predicate names; anything else keeps
+    its generic key."""
     obs = Obs()
     fn(bn, prm, obs, ctx, aux)
-    unresolved = [v for v in obs.viol if v["attrib"]]
-    cur = bn
-    for key in NEUTRALISABLE:
-        if not any(key in v["attrib"] for v in unresolved if "final" not in v):
-            continue
-        nb = neutralise(cur, key, partial)
-        if nb is None:
-            continue
-        cur = nb
-        o2 = Obs()
-        fn(cur, prm, o2, ctx, aux)
-        left = {v["key"] for v in o2.viol}
-        for v in unresolved:
-            if "final" not in v and key in v["attrib"] and v["key"] not in left:
-                v["final"] = key
-        obs.note("neutralised_reruns")
+    cand = [v for v in obs.viol if any(k in v["attrib"] for k in NEUTRALISABLE)]
+    if cand:
+        cur, applied = bn, []
+        triggers = {k for v in cand for k in v["attrib"]}
+        for key in NEUTRALISABLE:
+            if key not in triggers:
+                continue
+            nb = neutralise(cur, key, partial)
+            if nb is None:
+                continue
+            cur = nb
+            applied.append(key)
+            o2 = Obs()
+            fn(cur, prm, o2, ctx, aux)
+            obs.note("neutralised_reruns")
+            left = [w for w in o2.viol if not any(k in w["attrib"] for k in (K_VLEAK, K_GIBBS_SEED, K_GEN_LAT))]
+            triggers |= {k for w in left for k in w["attrib"]}   # a re-labelling can expose another known trigger
+            if not left:
+                for v in cand:
+                    mine = [k for k in applied if k in v["attrib"]]
+                    if mine:
+                        v["final"] = mine[-1]
+                break
     # predicates that need no re-run (the triggering feature is the call option itself)
     for v in obs.viol:
         if "final" not in v:
@@ -949,6 +980,7 @@ def emit(ctx, obs):
 # ------------------------------------------------------------------ case
 def run_case(spec, ctx):
     setup(ctx)
+    set_tolerance(ctx.backend)
     if spec["type"] == "mn":
         obs = Obs()
         probe_mn(spec, obs, ctx)
